@@ -1281,6 +1281,27 @@ impl Worterbuch {
         value.and_then(|it| serde_json::from_value(it).ok())
     }
 
+    /// The patterns [`Worterbuch::disconnected`] will delete and the key/value pairs it will set
+    /// for this client (its grave goods and its last will), as far as they concern user keys.
+    pub(crate) fn session_end_effects(
+        &self,
+        client_id: &ClientId,
+    ) -> (GraveGoods, LastWill) {
+        let grave_goods = self
+            .grave_goods_for_client(client_id)
+            .unwrap_or_default()
+            .into_iter()
+            .filter(|it| !is_system_key(it))
+            .collect();
+        let last_will = self
+            .last_will_for_client(client_id)
+            .unwrap_or_default()
+            .into_iter()
+            .filter(|it| !is_system_key(&it.key))
+            .collect();
+        (grave_goods, last_will)
+    }
+
     pub async fn disconnected(
         &mut self,
         client_id: ClientId,
